@@ -88,6 +88,33 @@ def pairq_case(job, t0):
                 idx = list(range(0, len(j.segments), 2))
                 j.split(idx, [F(1, 2) if w.real.numtype != "float" else 0.5] * len(idx))
             variants.append(("split", S))
+            S3 = _copy.deepcopy(A)
+            for j in S3.jordans:
+                idx = list(range(1, len(j.segments), 2)) or [0]
+                j.split(idx, [F(1, 3) if w.real.numtype != "float" else 1 / 3] * len(idx))
+            variants.append(("split3", S3))
+            # history: queried, moved away in place, and moved back to the same place
+            M = w.canonical(ra)
+            for j in M.jordans:
+                (0.123, 0.456) in j
+            float(M)
+            M.move(3, -2)
+            M2 = w.canonical(ra, ("m1",))           # built directly at the moved place, never queried
+            try:
+                if (M == M2) is not True or (M2 == M) is not True:
+                    fails.append(Failure("C07", "a shape moved in place after a query is not == the same region built at that place", a=ra))
+            except BaseException as ex:  # noqa
+                fails.append(Failure("C07", "== raised after an in-place move", exc=repr(ex), a=ra))
+            R_ = w.canonical(ra)
+            for j in R_.jordans:
+                (0.123, 0.456) in j
+            R_.rotate(90, True)
+            R2 = w.canonical(ra, ("r1",))
+            try:
+                if (R_ == R2) is not True or (R2 == R_) is not True:
+                    fails.append(Failure("C07", "a shape rotated in place after a query is not == the same region built at that place", a=ra))
+            except BaseException as ex:  # noqa
+                fails.append(Failure("C07", "== raised after an in-place rotation", exc=repr(ex), a=ra))
             if real.numtype != "float" and real.deg == 1:
                 variants.append(("float", w.canonical_variant(ra, numtype="float")))
         except BaseException as ex:  # noqa
@@ -230,6 +257,11 @@ def incl_excl_case(job, t0):
     sp = w.sp
     ra, rb = row["a"], row["b"]
     A, B = w.canonical(ra), w.canonical(rb)
+    if opts.get("via_invert") and kind_of(A) == "S":
+        # history: the operand is obtained by inverting its complement in place after a query
+        A = w.canonical(st.u.full ^ ra)
+        float(A), (B in A)
+        A.invert()
     fails = []
     exact = w.exact_mode(())
     orders = [(0, 0), (1, 0), (0, 1), (2, 0), (1, 1), (0, 2)]
@@ -440,7 +472,10 @@ def inter_case(job, t0):
     if len({(tuple(x["pt"])) for x in row["xing"]}) % 2:
         fails.append(Failure("C14", "odd number of crossings in the specification", a=ra, b=rb))
     # after splitting both shapes at the crossings (as the operators do): crossings at vertices
+    # (not under poly-frac-big: split points are rounded there, finding F-C13-intermediate-cap)
     try:
+        if real.name == "poly-frac-big":
+            raise StopIteration
         _ = A | B if row["reaches"] else None
         for JA in A.jordans:
             for JB in B.jordans:
@@ -468,8 +503,28 @@ def inter_case(job, t0):
                 want_noend = sorted(e for e in full if e[2] is None or not (e[2] in (0, 1) and e[3] in (0, 1)))
                 if sorted(noend, key=repr) != sorted(want_noend, key=repr):
                     fails.append(Failure("C14", "end_points=False does not filter exactly the end-point entries", a=ra, b=rb, full=full, noend=noend))
+    except StopIteration:
+        pass
     except BaseException as ex:  # noqa
         fails.append(Failure("C14", "intersection after splitting raised", exc=repr(ex), a=ra, b=rb))
+    # history: both shapes moved in place by the same vector after one of them was queried:
+    # the crossings (parameters are invariant under the move) must still be reported
+    if row["xing"]:
+        try:
+            A2, B2 = w.canonical(ra), w.canonical(rb)
+            for j in A2.jordans:
+                (0.123, 0.456) in j
+                j.box()
+            A2.move(5, 7)
+            B2.move(5, 7)
+            for JA, JA2 in zip(A.jordans, A2.jordans):
+                for JB, JB2 in zip(B.jordans, B2.jordans):
+                    g0 = sorted((a, b) for (a, b, u, v) in w.canonical(ra).jordans[list(A.jordans).index(JA)].intersection(w.canonical(rb).jordans[list(B.jordans).index(JB)]) if u is not None)
+                    g1 = sorted((a, b) for (a, b, u, v) in JA2.intersection(JB2) if u is not None)
+                    if g0 != g1:
+                        fails.append(Failure("C14", "crossings lost or changed after both curves were moved in place", a=ra, b=rb, before=g0, after=g1))
+        except BaseException as ex:  # noqa
+            fails.append(Failure("C14", "intersection after an in-place move raised", exc=repr(ex), a=ra, b=rb))
     # identical curves: (None, None) exactly for identical segments
     if ra == rb or not row["xing"]:
         J = A.jordans[0] if kind_of(A) in "SCD" else None
@@ -703,6 +758,28 @@ def bezier_case(job):
             wn = IntegratePlanar.winding_number(seg, c)
             if abs(wn - ang / math.tau) > 1e-9:
                 fails.append(Failure("C18", "winding contribution differs from the subtended angle", degree=p, expected=ang / math.tau, got=wn))
+        # a segment that belongs to a closed curve: after the curve is moved / scaled / rotated in
+        # place the segment's box must still contain the segment (history: box queried before)
+        if numtype == "float" and p in (1, 2, 3) and kx % 3 == 0:
+            base = {1: [[(0, 0), (4, 0)], [(4, 0), (1, 3)], [(1, 3), (0, 0)]],
+                    2: [[(0, 0), (2, -2), (4, 0)], [(4, 0), (2, 2), (0, 0)]],
+                    3: [[(0, 0), (3, 0)], [(3, 0), (3, 2), (0, 2), (0, 0)]]}[p]
+            for how in ("move", "scale", "rotate"):
+                J = sp.JordanCurve.from_ctrlpoints(base)
+                for sg in J.segments:
+                    sg.box(); (0.5, 0.1) in sg
+                (0.5, 0.1) in J
+                {"move": lambda: J.move(10, -7), "scale": lambda: J.scale(3, 2), "rotate": lambda: J.rotate(90, True)}[how]()
+                for sg in J.segments:
+                    b = sg.box()
+                    for n in range(0, 11):
+                        q = sg(n / 10)
+                        if not (q in b):
+                            fails.append(Failure("C18", "box() of a segment does not contain segment(t) after the curve was transformed in place", how=how, degree=sg.degree))
+                            break
+                    else:
+                        if sg.degree >= 1 and not ((sg(0.5)[0], sg(0.5)[1]) in sg):
+                            fails.append(Failure("C18", "segment(t) in segment is False after the curve was transformed in place", how=how, degree=sg.degree))
         return {"universe": "bezier", "real": numtype, "case": "bz:%d:%d" % (kx, ky), "row": None, "fails": [f.as_dict() for f in fails], "stats": {}, "wall": time.time() - t0,
                 "steps": [["PlanarCurve", [str(c) for c in ctrl]], ["Eval/Derivate/Split at", [list(n) for n in nodes]]], "machinery": None}
     except BaseException:  # noqa
@@ -842,6 +919,13 @@ def ctors_case(job, t0):
                     fails.append(Failure("C17", "sign of float(curve) is not the orientation", how=nm, loop=lp))
                 if abs(float(ar) - float(sp.IntegrateJordan.area(ref))) > 1e-9 * max(1.0, abs(float(ar))):
                     fails.append(Failure("C17", "area differs between constructors", a=nm, loop=lp))
+            # in-place invert after the signed length was read: the sign must flip
+            K = built[names[-1]]
+            f0 = float(K)
+            K.invert()
+            if not (float(K) == -f0 or abs(float(K) + f0) <= 1e-9 * abs(f0)):
+                fails.append(Failure("C17", "float(curve) keeps its sign after invert()", before=f0, after=float(K), loop=lp))
+            K.invert()
             # the shape on the loop's left: the loop alone is ccw iff it is an outer boundary
             S = sp.SimpleShape(ref)
             inside = w.project_region(S)[0]
@@ -945,6 +1029,28 @@ def prims_case(job):
                     big = 10 * float(s) + 5
                     if not ((cx, cy) in S) or ((float(cx) + big, float(cy) + big) in S):
                         fails.append(Failure("C16", "centre not contained or far point contained", **what))
+        # every number of sides: exactly nsides vertices on the circle, no zero-length side
+        if idxs and idxs[0] % 7 == 0:
+            for n in range(3, 260, 1 if idxs[0] == 0 else 3):
+                S = P.regular_polygon(n, 2.5, (1, -1))
+                vs = [sg.ctrlpoints[0] for sg in S.jordans[0].segments]
+                if len(vs) != n:
+                    fails.append(Failure("C16", "regular_polygon does not have nsides vertices", nsides=n, got=len(vs)))
+                    continue
+                for k, v in enumerate(vs):
+                    ex = (1 + 2.5 * math.cos(math.tau * k / n), -1 + 2.5 * math.sin(math.tau * k / n))
+                    if abs(float(v[0]) - ex[0]) + abs(float(v[1]) - ex[1]) > 1e-9:
+                        fails.append(Failure("C16", "regular_polygon vertex off the closed form", nsides=n, k=k))
+                        break
+        # Primitive.polygon keeps the given vertices: later in-place changes of the shape must not
+        # reach the caller's list nor another polygon built from the same Point2D objects
+        pts = [sp.Point2D(0, 0), sp.Point2D(4, 0), sp.Point2D(4, 3), sp.Point2D(0, 3)]
+        S1, S2 = P.polygon(pts), P.polygon(pts)
+        S1.move(10, 20)
+        if [(float(q[0]), float(q[1])) for q in pts] != [(0, 0), (4, 0), (4, 3), (0, 3)]:
+            fails.append(Failure("C16", "moving a polygon changed the caller's vertex list"))
+        if [(float(v[0]), float(v[1])) for v in S2.jordans[0].vertices] != [(0, 0), (4, 0), (4, 3), (0, 3)] or not ((1, 1) in S2):
+            fails.append(Failure("C16", "moving a polygon changed another polygon built from the same points"))
         # circle area converges monotonically to pi r^2
         areas = [float(sp.IntegrateShape.area(P.circle(1.5, (0.5, -1), n))) for n in (4, 5, 8, 16, 64, 256)]
         if not all(a > b for a, b in zip(areas, areas[1:])) or abs(areas[-1] - math.pi * 2.25) > 1e-6 * math.pi * 2.25 * 10:
@@ -980,8 +1086,12 @@ def plot_case(job, t0):
     sp = w.sp
     fails = []
     obj = w.canonical(reg)
-    if opts.get("cubic_up") and kind_of(obj) in "SCD":
-        pass
+    if opts.get("redundant") and kind_of(obj) in "SCD":
+        # a boundary with redundant vertices (as left by an operator): plotting must draw them
+        # segment by segment and must not clean the shape
+        for j in obj.jordans:
+            idx = list(range(0, len(j.segments), 2))
+            j.split(idx, [0.5 if real.numtype == "float" else F(1, 2)] * len(idx))
     snap = w.snapshot(obj)
     plotter = sp.ShapePloter()
     try:
@@ -1040,7 +1150,7 @@ def plot_case(job, t0):
                     fails.append(Failure("C20", "vertices of an outline differ from the control points", index=bad[:3], reg=reg))
             # the plan of the specification: one sub-path per loop with one group per corner
             ncorn = sorted(c[1] for c in plan["corners"])
-            if sorted(len(j.segments) for j in jl) != ncorn:
+            if not opts.get("redundant") and sorted(len(j.segments) for j in jl) != ncorn:
                 fails.append(Failure("C20", "segments per drawn curve differ from the corners of the loops", expected=ncorn, reg=reg))
         else:
             if patches:
@@ -1132,3 +1242,138 @@ def gallery_case(job):
                 "wall": time.time() - t0, "steps": [["from_ctrlpoints", name]] + [["Transform", g] for g in word], "machinery": None}
     except BaseException:  # noqa
         return {"universe": "gallery", "real": numtype, "case": "g:%s" % name, "fails": [], "stats": {}, "wall": time.time() - t0, "machinery": traceback.format_exc()}
+
+
+# ------------------------------------------------------------------ C02 gallery
+def gallery_points_case(job):
+    """point membership on hand-made curved shapes with closed-form ground truth, probing
+    the places a grid realisation never hits: points exactly on chords, on the borders of the
+    control boxes of curved segments, on the axis of symmetry"""
+    t0 = time.time()
+    name, numtype, opts = job
+    try:
+        sp = world.shapepy()
+        conv = {"int": int, "frac": F, "float": float}[numtype]
+        fails = []
+        if name == "lens":
+            # two quadratic arcs between (0,0) and (4,0): y = +- x(4-x)/4
+            ctrl = [[(0, 0), (2, -2), (4, 0)], [(4, 0), (2, 2), (0, 0)]]
+            inside = lambda x, y: 0 < x < 4 and abs(y) < x * (4 - x) / 4
+            onb = lambda x, y: 0 <= x <= 4 and abs(y) == x * (4 - x) / 4
+        elif name == "stadium":
+            # rectangle [0,4]x[0,2] with cubic caps bulging to x = -1.5 and x = 5.5 at mid height
+            ctrl = [[(0, 0), (4, 0)], [(4, 0), (6, 0), (6, 2), (4, 2)], [(4, 2), (0, 2)], [(0, 2), (-2, 2), (-2, 0), (0, 0)]]
+            def capx(y):   # x-extent of the right cap at height y: x = 4 + 6 t (1-t) with y = 2 (3t^2 - 2t^3)... solved numerically below
+                return None
+            inside = None
+            onb = None
+        else:
+            raise ValueError(name)
+        S = sp.SimpleShape(sp.JordanCurve.from_ctrlpoints([[(conv(x), conv(y)) for x, y in seg] for seg in ctrl]))
+        pts = []
+        if name == "lens":
+            for i in range(-2, 19):
+                for j in range(-9, 10):
+                    pts.append((F(i, 4), F(j, 8)))
+            pts += [(F(1, 3), 0), (F(11, 3), 0), (2, F(999, 1000)), (2, F(-999, 1000)), (2, F(1001, 1000)), (F(1, 1000), 0), (F(3999, 1000), 0)]
+            for (x, y) in pts:
+                if onb(x, y):
+                    want = {True: True, False: False}
+                elif inside(x, y):
+                    want = {True: True, False: True}
+                else:
+                    want = {True: False, False: False}
+                q = (float(x), float(y)) if numtype == "float" else (x, y)
+                for flag in (True, False):
+                    try:
+                        got = S.contains_point(q, flag)
+                    except BaseException as ex:  # noqa
+                        fails.append(Failure("C02", "point query raised", exc=repr(ex), point=(x, y), shape=name))
+                        continue
+                    if got is not want[flag]:
+                        fails.append(Failure("C02", "point membership wrong", shape=name, point=(x, y), boundary=flag, expected=want[flag], got=repr(got)))
+                # the complement answers the opposite off the boundary
+                if not onb(x, y):
+                    try:
+                        if ((q in (~S)) is not (not inside(x, y))):
+                            fails.append(Failure("C02", "point membership wrong in the complement", shape=name, point=(x, y)))
+                    except BaseException as ex:  # noqa
+                        fails.append(Failure("C02", "point query raised", exc=repr(ex), point=(x, y), shape=name))
+                if len(fails) > 6:
+                    break
+        else:
+            # stadium: ground truth by symmetric bisection on the cap curve x(t) = 4 + 6t(1-t), y(t) = 6t^2 - 4t^3
+            import math
+            def cap_extent(y):
+                lo, hi = 0.0, 1.0
+                for _ in range(80):
+                    mid = (lo + hi) / 2
+                    if 6 * mid * mid - 4 * mid ** 3 < y:
+                        lo = mid
+                    else:
+                        hi = mid
+                t = (lo + hi) / 2
+                return 6 * t * (1 - t)
+            for i in range(-10, 27):
+                for j in range(-2, 11):
+                    x, y = i / 4, j / 4
+                    if not (0 < y < 2):
+                        if y < 0 or y > 2:
+                            want = False
+                        else:
+                            continue      # on the straight edges or their extension: boundary cases skipped
+                    else:
+                        e = cap_extent(y)
+                        if abs(x - (4 + e)) < 1e-6 or abs(x - (-e)) < 1e-6:
+                            continue
+                        want = -e < x < 4 + e
+                    try:
+                        got = (x, y) in S
+                    except BaseException as ex:  # noqa
+                        fails.append(Failure("C02", "point query raised", exc=repr(ex), point=(x, y), shape=name))
+                        continue
+                    if got is not want:
+                        fails.append(Failure("C02", "point membership wrong", shape=name, point=(x, y), expected=want, got=repr(got)))
+                    if len(fails) > 6:
+                        break
+        return {"universe": "gallery", "real": numtype, "case": "gp:%s" % name, "row": None, "fails": [f.as_dict() for f in fails], "stats": {}, "wall": time.time() - t0,
+                "steps": [["from_ctrlpoints", name], ["QPoint*", "grid of rational points incl. chord and control-box borders"]], "machinery": None}
+    except BaseException:  # noqa
+        return {"universe": "gallery", "real": numtype, "case": "gp:%s" % name, "fails": [], "stats": {}, "wall": time.time() - t0, "machinery": traceback.format_exc()}
+
+
+
+# ------------------------------------------------------------------ C14 gallery
+def inter_gallery_case(job):
+    """crossings at irrational parameters with closed-form ground truth: the parabola arc
+    (0,0),(2,4),(4,0)  [y = x(4-x)/... : x = 4t, y = 8t(1-t)]  cut by the bottom edge y = h of a
+    rectangle, for rational h: u = (1 -+ sqrt(1 - h/2)) / 2"""
+    import math
+    t0 = time.time()
+    numtype, hs, opts = job
+    try:
+        sp = world.shapepy()
+        conv = {"frac": F, "float": float, "int": int}[numtype]
+        fails = []
+        arc = sp.JordanCurve.from_ctrlpoints([[(conv(0), conv(0)), (conv(2), conv(4)), (conv(4), conv(0))], [(conv(4), conv(0)), (conv(0), conv(0))]])
+        for h in hs:
+            hh = F(h) if numtype != "float" else float(h)
+            rect = sp.JordanCurve.from_vertices([(conv(-1), hh), (conv(5), hh), (conv(5), conv(5)), (conv(-1), conv(5))])
+            got = arc.intersection(rect)
+            exp_u = sorted([(1 - math.sqrt(1 - float(h) / 2)) / 2, (1 + math.sqrt(1 - float(h) / 2)) / 2])
+            gu = sorted(float(u) for (a, b, u, v) in got if u is not None and a == 0 and b == 0)
+            if len(gu) != 2 or any(abs(x - y) > 1e-6 for x, y in zip(gu, exp_u)):
+                fails.append(Failure("C14", "crossings of an arc with a line at irrational parameters differ from the closed form", h=str(h), expected=exp_u, got=gu, numtype=numtype))
+            gv = sorted(float(v) for (a, b, u, v) in got if u is not None and a == 0 and b == 0)
+            exp_v = sorted([(4 * x + 1) / 6 for x in exp_u])
+            if len(gv) == 2 and any(abs(x - y) > 1e-6 for x, y in zip(gv, exp_v)):
+                fails.append(Failure("C14", "parameters on the line differ from the closed form", h=str(h), expected=exp_v, got=gv))
+            sw = rect.intersection(arc)
+            if sorted((b, a) for (a, b, u, v) in sw if u is not None) != sorted((a, b) for (a, b, u, v) in got if u is not None):
+                fails.append(Failure("C14", "swapping the operands does not swap the roles", h=str(h)))
+            if len(fails) > 4:
+                break
+        return {"universe": "gallery", "real": numtype, "case": "ig:%s" % numtype, "row": None, "fails": [f.as_dict() for f in fails], "stats": {}, "wall": time.time() - t0,
+                "steps": [["arc x rectangle edge at heights", [str(h) for h in hs]]], "machinery": None}
+    except BaseException:  # noqa
+        return {"universe": "gallery", "real": numtype, "case": "ig", "fails": [], "stats": {}, "wall": time.time() - t0, "machinery": traceback.format_exc()}
